@@ -13,9 +13,12 @@ VARIABLES l,        \* next trace line
           all,      \* every entry ever written (the history)
           gcd,      \* entries discarded by garbage collection
           lastKind, \* kind of the last consumed event (for coverage / diagnostics)
-          devUsed   \* named deviations (known findings, constant Dev) this run has exercised
+          devUsed,  \* named deviations (known findings, constant Dev) this run has exercised
+          acct      \* setsum accounting (C04): [listed |-> ids the manifest lists, O |-> its output setsum, cols |-> id -> columns]
 
-vars == <<l, keys, mem, levels, files, all, gcd, lastKind, devUsed>>
+vars == <<l, keys, mem, levels, files, all, gcd, lastKind, devUsed, acct>>
+
+SS == INSTANCE Setsum WITH Dev <- {}
 
 E(t) == [k |-> t[1], ts |-> t[2], v |-> t[3]]
 ESet(s) == {E(s[i]) : i \in 1..Len(s)}
@@ -32,6 +35,50 @@ NoErr == ~("err" \in DOMAIN Ev)
 
 \* reads logged with the event agree with the property (ideal), evaluated on the successor state
 GetCode(c) == IF c <= 0 THEN 0 ELSE c
+(* ----------------------- C04: one setsum covers all data ------------------------ *)
+CP(p) == [h |-> p[1], l |-> p[2]]
+Cols(c) == [i \in 1..8 |-> CP(c[i])]
+RECURSIVE SumSeq(_, _)
+SumSeq(sq, n) == IF n = 0 THEN SS!ZeroState ELSE SS!AddState(SumSeq(sq, n - 1), sq[n])
+SumIds(S, cols) == LET q == SetToSeq(S) IN SumSeq([i \in 1..Len(q) |-> cols[q[i]]], Len(q))
+\* every new file's recorded setsum is the sum of the setsums of the entries stored in it
+FilesBalance(nf) == \A i \in 1..Len(nf) :
+  ("cols" \in DOMAIN nf[i]) =>
+     /\ Len(nf[i].ehash) = Len(nf[i].entries)
+     /\ Cols(nf[i].cols) = SumSeq([j \in 1..Len(nf[i].ehash) |-> Cols(nf[i].ehash[j])], Len(nf[i].ehash))
+RECURSIVE AddCols(_, _, _)
+AddCols(c, nf, i) == IF i > Len(nf) THEN c ELSE AddCols(IF "cols" \in DOMAIN nf[i] THEN (nf[i].id :> Cols(nf[i].cols)) @@ c ELSE c, nf, i + 1)
+\* fold the manifest transactions of this event: each starts from the previous output, balances
+\* input = output + discard, discards exactly removed minus added, and its output is the sum of the
+\* files listed afterwards; the first edit of a fragment restates the complete state
+RECURSIVE Txns(_, _, _, _)
+Txns(a, tx, i, cols) ==
+  IF i > Len(tx) THEN a
+  ELSE LET t == tx[i]
+           add == {t.added[j] : j \in 1..Len(t.added)}
+           rm == {t.rmed[j] : j \in 1..Len(t.rmed)}
+           O == Cols(t.O)  I == Cols(t.I)  D == Cols(t.D)
+       IN IF t.first
+          THEN IF /\ G("a manifest fragment starts with the complete state (C04/C13)", add = a.listed /\ rm = {})
+                  /\ G("a manifest fragment continues from the previous output setsum (C04)", O = a.O)
+               THEN Txns([a EXCEPT !.listed = add], tx, i + 1, cols) ELSE [a EXCEPT !.listed = {"REJECTED"}]
+          ELSE LET listed2 == (a.listed \ rm) \cup add IN
+               IF /\ G("a transaction starts from the previous transaction's output (C04)", I = a.O)
+                  /\ G("input = output + discard (C04)", I = SS!AddState(O, D))
+                  /\ G("discard = removed - added (C04)", D = SS!SubState(SumIds(rm, cols), SumIds(add, cols)))
+                  /\ G("recorded output = sum of the setsums of the listed SSTs (C04)", O = SumIds(listed2, cols))
+               THEN Txns([a EXCEPT !.listed = listed2, !.O = O], tx, i + 1, cols) ELSE [a EXCEPT !.listed = {"REJECTED"}]
+\* the accounting step of an event that may carry manifest transactions
+Acct(ev) ==
+  IF "txns" \in DOMAIN ev
+  THEN LET cols == AddCols(acct.cols, ev.newfiles, 1)
+           a2 == Txns([acct EXCEPT !.cols = cols], ev.txns, 1, cols)
+       IN /\ G("each SST's setsum = sum over its stored entries (C04)", FilesBalance(ev.newfiles))
+          /\ a2.listed # {"REJECTED"}
+          /\ G("the manifest lists exactly the SSTs of the tree (C04)", a2.listed = Ids(levels'))
+          /\ acct' = a2
+  ELSE acct' = acct
+
 \* While no deviation has been exercised, reads must equal the property (the latest write).  Once a
 \* listed deviation has fired, the tree's level order is known to be off; reads are then held to the
 \* mechanism (the transcription of Version::load / range_scan on the logged levels), so that a
@@ -45,6 +92,7 @@ ReadsOk(ev, all2, ks) ==
             \A k \in ks : GetCode(ev.gets[k]) = Visible(MechLoad(mem', levels', files', k, MAXTS)))
 
 TraceInit == /\ l = 1 /\ keys = {} /\ mem = {} /\ levels = <<>> /\ files = <<>> /\ all = {} /\ gcd = {} /\ lastKind = "none" /\ devUsed = {}
+             /\ acct = [listed |-> {}, O |-> SS!ZeroState, cols |-> <<>>]
 
 \* "open" starts a new run: fresh database
 Open == /\ IsEvent("open") /\ NoErr
@@ -53,6 +101,10 @@ Open == /\ IsEvent("open") /\ NoErr
         /\ files' = AddFiles(<<>>, Ev.newfiles, 1)
         /\ levels' = Ev.levels
         /\ Ids(levels') = {}
+        /\ IF "txns" \in DOMAIN Ev
+           THEN LET a2 == Txns([listed |-> {}, O |-> SS!ZeroState, cols |-> <<>>], Ev.txns, 1, <<>>)
+                IN a2.listed # {"REJECTED"} /\ acct' = a2
+           ELSE acct' = [listed |-> {}, O |-> SS!ZeroState, cols |-> <<>>]
         /\ ReadsOk(Ev, {}, keys')
 
 Write == /\ IsEvent("write") /\ NoErr
@@ -62,6 +114,7 @@ Write == /\ IsEvent("write") /\ NoErr
                /\ mem' = mem \cup new
                /\ all' = all \cup new
                /\ G("write leaves the tree alone", Ev.levels = levels /\ Ev.newfiles = <<>>)
+               /\ Acct(Ev)
                /\ ReadsOk(Ev, all', keys)
 
 \* memtable flush: exactly one new file holding exactly the memtable
@@ -73,6 +126,7 @@ Flush == /\ IsEvent("flush") /\ NoErr
          /\ Ids(levels') = Ids(levels) \cup {Ev.newfiles[1].id}
          /\ G("flushed file = memtable (C05)", files'[Ev.newfiles[1].id] = mem)
          /\ mem' = {}
+         /\ Acct(Ev)
          /\ ReadsOk(Ev, all, keys)
 
 \* external ingest (LsmTree mode): one new file with the given entries; timestamps chosen by the driver
@@ -84,6 +138,7 @@ Ingest == /\ IsEvent("ingest") /\ NoErr
           /\ Ids(levels') = Ids(levels) \cup {Ev.newfiles[1].id}
           /\ files'[Ev.newfiles[1].id] = ESet(Ev.entries)
           /\ all' = all \cup ESet(Ev.entries)
+          /\ Acct(Ev)
           /\ ReadsOk(Ev, all', keys)
 
 \* one compaction-thread iteration: trivial move, merge, or garbage collection (or nothing)
@@ -105,6 +160,7 @@ Compact == /\ IsEvent("compact") /\ NoErr
                  /\ G("non-GC compaction keeps reads at every timestamp (C05)",
                       (disc = {} /\ devUsed = {}) => \A k \in keys, t \in {e.ts : e \in all} :
                                     TreeLoad(levels', files', k, t, 1) = TreeLoad(levels, files, k, t, 1))
+           /\ Acct(Ev)
            /\ ReadsOk(Ev, all, keys)
 
 \* clean close and reopen: the memtable comes back as an SST recovered from the log; levels are rebuilt.
@@ -126,6 +182,7 @@ Reopen == /\ IsEvent("reopen") /\ NoErr
                  fires == "RecoverLevelsFromMetadata" \in Dev /\ ~LevelsDisjoint(levels', files') /\ asCoded
              IN devUsed' = IF fires THEN devUsed \cup {(PrintT(<<"DEV-USED", "RecoverLevelsFromMetadata", l>>) :> "RecoverLevelsFromMetadata")[TRUE]}
                            ELSE devUsed
+          /\ Acct(Ev)
           /\ ReadsOk(Ev, all, keys)
 
 \* offline verifier pass: accepts (or asks to back off); contents unchanged
@@ -133,11 +190,12 @@ Verify == /\ IsEvent("verify") /\ NoErr
           /\ UNCHANGED <<keys, mem, levels, files, all, gcd, devUsed>>
           /\ G("the verifier accepts what the store produced (C04)", Ev.verdict \in {"ok", "backoff"})
           /\ Ev.levels = levels /\ Ev.newfiles = <<>>
+          /\ Acct(Ev)
           /\ ReadsOk(Ev, all, keys)
 
 \* a scan program: every observation equals the ideal cursor's
 ScanProg == /\ IsEvent("scanprog") /\ NoErr
-            /\ UNCHANGED <<keys, mem, levels, files, all, gcd, devUsed>>
+            /\ UNCHANGED <<keys, mem, levels, files, all, gcd, devUsed, acct>>
             /\ LET ideal == IdealScan(all, B(Ev.lo), B(Ev.hi), MAXTS)
                    calls == [i \in 1..Len(Ev.calls) |-> Ev.calls[i]]
                    mech == RunOps(Build(ScanExpr(mem, levels, files, B(Ev.lo), B(Ev.hi), MAXTS)), calls, 1)
@@ -149,6 +207,7 @@ ScanProg == /\ IsEvent("scanprog") /\ NoErr
 Skip == /\ IsEvent("skip") /\ NoErr
         /\ UNCHANGED <<keys, mem, levels, files, all, gcd, devUsed>>
         /\ Ev.levels = levels /\ Ev.newfiles = <<>>
+        /\ Acct(Ev)
         /\ ReadsOk(Ev, all, keys)
 
 TraceNext == Skip \/ Open \/ Write \/ Flush \/ Ingest \/ Compact \/ Reopen \/ Verify \/ ScanProg
